@@ -94,7 +94,7 @@ def run_script(exe, script, timeout=120, workdir=None, want_text=False):
     open(sp, "w").write(script)
     try:
         r = subprocess.run([exe, sp, op], capture_output=True, text=True, timeout=timeout, env=C.ENV, errors="replace")
-        rc = r.returncode; err = r.stderr[-4000:]
+        rc = r.returncode; err = r.stderr[-12000:]
     except subprocess.TimeoutExpired as e:
         rc = None; err = "timeout"
     text = open(op).read() if os.path.exists(op) else ""
